@@ -29,6 +29,9 @@ type Loader struct {
 	mu     sync.RWMutex
 	cache  map[string]*ast.Journal
 	limits Limits
+	// epoch counts cache invalidations: a file read before an invalidation must not be
+	// cached after it
+	epoch uint64
 }
 
 func NewLoader() *Loader {
@@ -199,6 +202,7 @@ func (l *Loader) loadSingleInclude(
 
 	l.mu.RLock()
 	cached, ok := l.cache[includePath]
+	epoch := l.epoch
 	l.mu.RUnlock()
 	if ok {
 		result.Files[includePath] = cached
@@ -244,7 +248,9 @@ func (l *Loader) loadSingleInclude(
 
 	if subResult != nil && subResult.Primary != nil {
 		l.mu.Lock()
-		l.cache[includePath] = subResult.Primary
+		if l.epoch == epoch {
+			l.cache[includePath] = subResult.Primary
+		}
 		l.mu.Unlock()
 		result.Files[includePath] = subResult.Primary
 		result.FileOrder = append(result.FileOrder, includePath)
@@ -290,10 +296,12 @@ func (l *Loader) ClearCache() {
 	l.mu.Lock()
 	defer l.mu.Unlock()
 	l.cache = make(map[string]*ast.Journal)
+	l.epoch++
 }
 
 func (l *Loader) InvalidateFile(path string) {
 	l.mu.Lock()
 	defer l.mu.Unlock()
 	delete(l.cache, path)
+	l.epoch++
 }
